@@ -97,11 +97,12 @@ package req
 //@ ghost var rwUHArr int
 // rwConnect: the method is CONNECT - its request target is the authority (host:port), also when written for a proxy
 //@ ghost var rwConnect bool
+//@ ghost var rwConnSeen bool
 //@ func write(req, w, usingProxy) err
 //@   props C11
 //@   abstract
 //@   noinline
-//@   modifies rwHdr, rwCL, rwHostEmpty, rwUH, rwUHArr, rwConnect
+//@   modifies rwHdr, rwCL, rwHostEmpty, rwUH, rwUHArr, rwConnect, rwConnSeen
 //@   ghostset-at-entry rwHdr = 0
 //@   ghostset-at-entry rwCL = -5
 //@   ghostset after RequestHeader.SetContentLength: rwCL = arg1
@@ -117,7 +118,9 @@ package req
 //@   assert before RequestHeader.SetHostBytes: rwHostEmpty && len(arg1) == rwUH && arr(arg1) == rwUHArr && rwUH > 0
 //@   ghostset-at-entry rwConnect = false
 //@   ghostset after Equal: rwConnect = result
-//@   assert before RequestHeader.SetRequestURIBytes: rwConnect ==> len(arg1) == rwUH && arr(arg1) == rwUHArr
+//@   ghostset-at-entry rwConnSeen = false
+//@   ghostset after Equal: rwConnSeen = true
+//@   assert before RequestHeader.SetRequestURIBytes: rwConnSeen && (rwConnect ==> len(arg1) == rwUH && arr(arg1) == rwUHArr)
 //@   unreachable-return 5 :: hasBody is set whenever the body is non-empty, so the "non-zero body for non-POST request" return is dead
 
 // ---- C01 / C03: reading a buffered request body ----
